@@ -134,6 +134,7 @@ def run_entry_points(d, schema, x, eps):
     return tag
 
 
+HEAVY_KINDS = ("arr_subschema", "obj_subschema", "arr_typename", "obj_arr_str", "arr_arr_str")
 CHEAP_KINDS = ("null", "bool", "int", "float", "subschema", "typename", "refstr", "idstr", "regex", "fmtname", "str")
 EPS_CORE = ["is_valid", "iter_errors", "validate"]
 EPS_ALL = EPS_CORE + ["module", "is_valid+fc", "module+fc"]
@@ -243,9 +244,9 @@ def conditions(tier, seed, active):
 
     def c(cid, factory, params, timeout=900):
         if factory == "single":
-            params = dict(params, exclude=list(active), small_cat=quick)
+            params = dict(params, exclude=list(active), small_cat=quick or params.get("kind") in HEAVY_KINDS)
         if factory == "pairf":
-            params = dict(params, small_cat=quick)
+            params = dict(params, small_cat=quick or params.get("kind1") in HEAVY_KINDS or params.get("kind2") in HEAVY_KINDS)
         out.append(dict(id=cid, module=__name__, factory=factory, params=params, timeout=timeout, tags=[], witness=[],
                         allow_vacuous=True))       # a value kind the metaschema never accepts leaves nothing to run (C11 decides acceptance)
 
@@ -260,11 +261,11 @@ def conditions(tier, seed, active):
                 if quick and rng.random() < (0.5 if kind in CHEAP_KINDS else 0.8):
                     continue
                 c("kw/%s/%s/d%d" % (k, kind, d), "single", dict(d=d, k=k, kind=kind))
-                if not quick or rng.random() < 0.03:
+                if rng.random() < (0.03 if quick else 0.1):
                     c("kw-all-entry-points/%s/%s/d%d" % (k, kind, d), "single", dict(d=d, k=k, kind=kind, eps="all"), timeout=1800)
             if not quick:
-                for pos in ("in_properties", "in_items_tuple", "in_not_or_extends"):
-                    for kind in kinds_for(d, k):
+                for pos in rng.sample(["in_properties", "in_items_tuple", "in_not_or_extends"], 2):
+                    for kind in rng.sample(kinds_for(d, k), 1):
                         c("kw@%s/%s/%s/d%d" % (pos, k, kind, d), "single", dict(d=d, k=k, kind=kind, position=pos), timeout=1800)
         kws = set(cand.keywords(d))
         for k1, kinds1, k2, kinds2 in PAIRS:
@@ -277,6 +278,8 @@ def conditions(tier, seed, active):
                     if d == 3 and k1 == "type" and a in ("str", "arr_str"):
                         continue
                     if quick and (a not in CHEAP_KINDS or b not in CHEAP_KINDS or rng.random() < 0.5):
+                        continue
+                    if not quick and (a not in CHEAP_KINDS or b not in CHEAP_KINDS) and rng.random() < 0.7:
                         continue
                     c("pair/%s:%s+%s:%s/d%d" % (k1, a, k2, b, d), "pairf", dict(d=d, k1=k1, kind1=a, k2=k2, kind2=b), timeout=1800)
     return out
